@@ -29,6 +29,9 @@ func TestSynthetic(t *testing.T) {
 				name = "badHelper.n"
 			}
 		}
+		if strings.HasPrefix(f, "p.E.") {
+			name = "badEscape.N"
+		}
 		if strings.HasPrefix(f, "p.items.") {
 			name = "okItems.[]"
 		}
@@ -43,7 +46,7 @@ func TestSynthetic(t *testing.T) {
 		"okCount": true, "okRW": true, "okDeferOrder": true, "okEarly": true, "okHelper.n": true, "okItems": true, "okItems.[]": true, "okViaLog": true,
 		"badRace": false, "badBranch": false, "badAfterUnlock": false, "badGo": false, "badDeferOrder": false, "badRW": false,
 		"badClosure": false, "badLoop": false, "badSwitch": false, "badHelper.n": false,
-		"badSplit": false, "badSplitCall": false, "badStale": false, "okRecheck": true, "okBlind": true,
+		"badScratch": false, "badEscape.N": false, "badEscape": true, "badSplit": false, "badSplitCall": false, "badStale": false, "okRecheck": true, "okBlind": true,
 	}
 	for k, w := range want {
 		got, ok := verdict[k]
